@@ -6,6 +6,7 @@ import (
 	"fmt"
 	"go/types"
 	"sort"
+	"strings"
 
 	"golang.org/x/tools/go/ssa"
 )
@@ -61,7 +62,8 @@ func wfArr(a *Term, nx *Term) *Term {
 	case a.Sort.V == SSlc:
 		v := Select(a, p)
 		return Forall([]Bound{{"wp", SPtr}}, And(Or(IsNil(SlcArr(v)), Lt(PObjID(SlcArr(v)), nx)),
-			Le(IntLit(0), SlcLen(v)), Le(SlcLen(v), SlcCap(v)), Le(IntLit(0), SlcOff(v))), []*Term{v})
+			Le(IntLit(0), SlcLen(v)), Le(SlcLen(v), SlcCap(v)), Le(IntLit(0), SlcOff(v)),
+			Implies(IsNil(SlcArr(v)), Eq(SlcCap(v), IntLit(0)))), []*Term{v})
 	case a.Sort.V.IsArray() && a.Sort.V.V == SPtr:
 		k := &Term{"wk", a.Sort.V.K}
 		v := Select(Select(a, p), k)
@@ -70,7 +72,8 @@ func wfArr(a *Term, nx *Term) *Term {
 		k := &Term{"wk", a.Sort.V.K}
 		v := Select(Select(a, p), k)
 		return Forall([]Bound{{"wp", SPtr}, {"wk", a.Sort.V.K}}, And(Or(IsNil(SlcArr(v)), Lt(PObjID(SlcArr(v)), nx)),
-			Le(IntLit(0), SlcLen(v)), Le(SlcLen(v), SlcCap(v)), Le(IntLit(0), SlcOff(v))), []*Term{v})
+			Le(IntLit(0), SlcLen(v)), Le(SlcLen(v), SlcCap(v)), Le(IntLit(0), SlcOff(v)),
+			Implies(IsNil(SlcArr(v)), Eq(SlcCap(v), IntLit(0)))), []*Term{v})
 	}
 	return nil
 }
@@ -371,4 +374,41 @@ func (h *HeapCtx) elemsOf(m, s *Term, es *Sort) *Term {
 	h.d.Raw(en+"$ax", fmt.Sprintf(`(assert (forall ((m %[1]s) (s Slice) (j Int)) (! (=> (and (<= 0 j) (< j (s_len s))) (select (%[2]s m s) (select m (s_elem s j)))) :pattern ((%[2]s m s) (select m (s_elem s j))))))
 (assert (forall ((m %[1]s) (s Slice) (x %[3]s)) (! (=> (select (%[2]s m s) x) (and (<= 0 (%[4]s m s x)) (< (%[4]s m s x) (s_len s)) (= (select m (s_elem s (%[4]s m s x))) x))) :pattern ((select (%[2]s m s) x)))))`, ms.Name, en, es.Name, in))
 	return mk(rs, en, m, s)
+}
+
+// elemsFrame: after an update of memory array `before` into `after` that only touches element cells of the
+// array object tarr, the element set of every slice over a different array object is unchanged.
+// (A consequence of the frame condition and of the definition of elems; stated for the solver's benefit.)
+func (h *HeapCtx) elemsFrame(before, after, tarr *Term) *Term {
+	es := before.Sort.V
+	if es == nil || es.IsArray() {
+		return nil
+	}
+	switch es {
+	case SStr, SInt, SPtr, SBool:
+	default:
+		if !strings.HasPrefix(es.Name, "TP_") {
+			return nil
+		}
+	}
+	sv := &Term{"es", SSlc}
+	jv := &Term{"ej", SInt}
+	e1 := h.elemsOf(after, sv, es)
+	e0 := h.elemsOf(before, sv, es)
+	return And(
+		Forall([]Bound{{"es", SSlc}}, Implies(Not(Eq(SlcArr(sv), tarr)), Eq(e1, e0)), []*Term{e1}),
+		Forall([]Bound{{"es", SSlc}, {"ej", SInt}}, Implies(Not(Eq(SlcArr(sv), tarr)),
+			Eq(Select(after, SlcElemAddr(sv, jv)), Select(before, SlcElemAddr(sv, jv)))), []*Term{Select(after, SlcElemAddr(sv, jv))}))
+}
+
+// elemsSupported: element sorts for which the elems set function is used
+func elemsSupported(es *Sort) bool {
+	if es == nil || es.IsArray() {
+		return false
+	}
+	switch es {
+	case SStr, SInt, SPtr, SBool:
+		return true
+	}
+	return strings.HasPrefix(es.Name, "TP_")
 }
